@@ -68,6 +68,7 @@ Terminal == ~EagerEnabled /\ ~ENABLED Controlled
 
 Tags == UNION {Verdicts(sent[s], from[s]) : s \in Streams}
         \cup {m \in {"LiveComplete", "PutNeverWaitsOnConsumer", "OthersServed"} :
+                \/ m = "OthersServed" /\ ~Mon_ReplacementServed
                 \/ m = "LiveComplete" /\ ~Mon_LiveComplete
                 \/ m = "PutNeverWaitsOnConsumer" /\ ~Mon_PutNeverWaitsOnConsumer
                 \/ m = "OthersServed" /\ ~Mon_OthersServed}
@@ -82,6 +83,6 @@ SimFinish ==
   /\ hist' = Append(hist, H("end", 0, 0, 0))
   /\ UNCHANGED <<vars, held>>
 
-SimNext == IF EagerEnabled THEN Eager ELSE (Controlled \/ SimFinish)
+SimNext == (IF EagerEnabled THEN Eager ELSE (Controlled \/ SimFinish)) /\ DueUpdate
 SimSpec == SimInit /\ [][SimNext]_svars
 =============================================================================
